@@ -211,6 +211,8 @@ def plan(tier, seed, excl):
     t += [('breakers', {'shard': i, 'of': 4}) for i in range(4)]
     t += [('random-text', {'shard': i, 'n': 400 if q else 12000}) for i in range(8)]
     t += [('random-scalar', {'shard': i, 'n': 2500 if q else 60000}) for i in range(4)]
+    # coverage-guided campaigns (atheris/libFuzzer) with the same oracle inside the target; one starts from an empty corpus
+    t += [('atheris', {'shard': i, 'runs': 6000 if q else 150000, 'empty_corpus': i == 0}) for i in range(2 if q else 4)]
     return t
 
 
@@ -316,6 +318,22 @@ def _run(part, args, env, acc, tier):
                     if n % 1501 == 1:
                         acc.sample({'breaker': what, 'text': t})
         acc.bulk(n, n)
+    elif part == 'atheris':
+        from .. import fuzz
+        import os
+        from ..core import VERIF_DIR
+        work = os.path.join(VERIF_DIR, '.work', 'fuzz-c09-%d-%d' % (os.getpid(), args['shard']))
+        res = fuzz.run_campaign('C09', shard_seed(env['seed'], PROPERTY, 'fz', args['shard']) % 100000 + 1, args['runs'],
+                                [] if args['empty_corpus'] else corpus(16), TOKENS, work, excl=EXCL)
+        if res['violation']:
+            v = res['violation']
+            acc.violation(Violation(v['stage'], v['case'], v['detail'], tuple(v.get('tags', ()))))
+        if res.get('failed'):
+            raise RuntimeError(res['note'])
+        acc.bulk(res['evaluations'], res['nontrivial'], labels=('atheris',))
+        acc.notes.append('atheris shard %d (%s corpus): %s, outcomes %r' % (
+            args['shard'], 'empty' if args['empty_corpus'] else 'seeded', res['note'], res['outcomes']))
+        acc.sample({'atheris': 'libFuzzer campaign', 'runs': res['evaluations'], 'outcomes': res['outcomes']})
     elif part == 'random-text':
         atoms = st.one_of(st.sampled_from(TOKENS), st.sampled_from(TOKENS), gen.any_char)
         body_ = st.lists(atoms, max_size=40).map(u''.join)
